@@ -154,7 +154,14 @@ Qed.
    of leaves, _1, _2 ... for repeats; only the names the action uses are bound) -- Sem/PegEval.v's convention. *)
 Definition src_aeval (aeval : string -> env -> option value) (a : alt) (vals : list value) (e : list (string * value)) (s p : nat) : option value :=
   match alt_action a with Some ac => aeval (subst_action (atext ac)) e | None => None end.
-Definition src_names (a : alt) (k : nat) : option string := nth k (bound_names (alt_items a) (action_used a) []) None.
+(* ... and a cut is the local `cut` the generated method binds (it carries no value; only an action that reads `cut` could tell) *)
+Fixpoint with_cut (items : list nitem) (names : list (option string)) : list (option string) :=
+  match items, names with
+  | n :: items', x :: names' => (if is_cut (ni_item n) then Some "cut" else x) :: with_cut items' names'
+  | _, _ => names
+  end.
+Definition src_name_list (a : alt) : list (option string) := with_cut (alt_items a) (bound_names (alt_items a) (action_used a) []).
+Definition src_names (a : alt) (k : nat) : option string := nth k (src_name_list a) None.
 
 Definition ostr_eqb (x y : option string) : bool :=
   match x, y with Some a, Some b => String.eqb a b | None, None => true | _, _ => false end.
@@ -171,7 +178,7 @@ Definition act_b (a a' : alt) : bool :=
   match alt_action a, alt_action a' with
   | Some ac, Some ac' =>
       negb (String.eqb (atext ac) "") && String.eqb (subst_action (atext ac)) (atext ac') &&
-      all2 ostr_eqb (bound_names (alt_items a) (action_used a) []) (map ni_name (alt_items a'))
+      all2 ostr_eqb (src_name_list a) (map ni_name (alt_items a'))
   | _, _ => false
   end.
 
